@@ -17,6 +17,7 @@ import (
 // ---------------------------------------------------------------------------
 
 func init() {
+	finals["C09"] = c09Final
 	ops["dh_gen"] = opDHGen
 	ops["dh_gen_failsweep"] = opDHGenFailSweep
 	ops["dh_pub"] = opDHPub
@@ -44,8 +45,33 @@ var (
 	two2048 = new(big.Int).Lsh(big.NewInt(1), 2048)
 )
 
+type heldExp struct {
+	obj  *big.Int
+	snap *big.Int
+	step int
+}
+
 type c09State struct {
 	exps map[string]bool
+	held []heldExp
+}
+
+// c09Final: exponents handed out earlier are still the numbers they were, and no two callers
+// were given the same object.
+func c09Final(w *World) {
+	st := c09st(w)
+	for i, h := range st.held {
+		if h.obj.Cmp(h.snap) != 0 {
+			w.violate("exponent_changed_later", "GenerateRandomNumber", "an exponent returned by GenerateRandomNumber at step %d changed its value after later calls", h.step)
+			return
+		}
+		for j := 0; j < i; j++ {
+			if st.held[j].obj == h.obj {
+				w.violate("same_exponent_object_returned_twice", "GenerateRandomNumber", "two GenerateRandomNumber calls (steps %d and %d) returned the same *big.Int object", st.held[j].step, h.step)
+				return
+			}
+		}
+	}
 }
 
 func c09st(w *World) *c09State {
@@ -111,6 +137,7 @@ func c09CheckExponent(w *World, x *big.Int, res *callResult, rs *RandScript, rep
 		w.stats.inc("exponent_freshness_checked")
 	}
 	st.exps[k] = true
+	st.held = append(st.held, heldExp{x, new(big.Int).Set(x), w.step})
 	// probes for the two rejection loops: a clean draw needs ceil(256/chunk) reads
 	need := 1
 	if rs != nil && rs.Chunk > 0 {
@@ -238,9 +265,14 @@ func opDHPub(w *World, s *Step) (string, string) {
 		return "nogroup", "nogroup"
 	}
 	x := exponentObj(w, s)
+	xBefore := new(big.Int).Set(x)
 	res := &callResult{}
 	var got []byte
 	guard(res, func() { got = lib.GetPublicValue(x) })
+	if w.prop == "C09" && x.Cmp(xBefore) != 0 {
+		w.violate("exponent_argument_modified", "GetPublicValue", "GetPublicValue changed the caller's exponent object")
+	}
+	x = xBefore
 	abs := fmt.Sprintf("g%d:%s", s.Group, res.class())
 	if w.prop != "C09" {
 		return fmt.Sprintf("%s:%x", res.class(), fnv1a(0, got)), abs
@@ -260,9 +292,14 @@ func opDHShared(w *World, s *Step) (string, string) {
 		return "nogroup", "nogroup"
 	}
 	x, y := exponentObj(w, s), new(big.Int).SetBytes(s.Y)
+	xBefore, yBefore := new(big.Int).Set(x), new(big.Int).Set(y)
 	res := &callResult{}
 	var got []byte
 	guard(res, func() { got = lib.GetSharedKey(x, y) })
+	if w.prop == "C09" && (x.Cmp(xBefore) != 0 || y.Cmp(yBefore) != 0) {
+		w.violate("exponent_argument_modified", "GetSharedKey", "GetSharedKey changed the caller's exponent or peer-value object (a party that uses its exponent again gets a wrong value)")
+	}
+	x, y = xBefore, yBefore
 	abs := fmt.Sprintf("g%d:%s", s.Group, res.class())
 	if w.prop != "C09" {
 		return fmt.Sprintf("%s:%x", res.class(), fnv1a(0, got)), abs
@@ -293,10 +330,18 @@ func opDHAgree(w *World, s *Step) (string, string) {
 	}
 	res := &callResult{}
 	var pa, pb, sa, sb []byte
+	xaV, xbV := new(big.Int).Set(xa), new(big.Int).Set(xb)
 	guard(res, func() {
-		pa, pb = lib.GetPublicValue(xa), lib.GetPublicValue(xb)
+		pa = lib.GetPublicValue(xa)
+		if s.N == 1 {
+			// the responder may compute the shared secret first and its public value afterwards
+			sb = lib.GetSharedKey(xb, new(big.Int).SetBytes(pa))
+			pb = lib.GetPublicValue(xb)
+		} else {
+			pb = lib.GetPublicValue(xb)
+			sb = lib.GetSharedKey(xb, new(big.Int).SetBytes(pa))
+		}
 		sa = lib.GetSharedKey(xa, new(big.Int).SetBytes(pb))
-		sb = lib.GetSharedKey(xb, new(big.Int).SetBytes(pa))
 	})
 	if w.prop != "C09" {
 		return fmt.Sprintf("%s:%x:%x", res.class(), fnv1a(0, sa), fnv1a(0, sb)), abs
@@ -307,9 +352,9 @@ func opDHAgree(w *World, s *Step) (string, string) {
 	}
 	c09CheckExponent(w, xa, ra, s.Rand, false)
 	c09CheckExponent(w, xb, rb, s.Rand2, false)
-	c09CheckValue(w, g, pa, g.Public(xa), "public", "initiator public value")
-	c09CheckValue(w, g, pb, g.Public(xb), "public", "responder public value")
-	want := g.Shared(xa, new(big.Int).SetBytes(g.Public(xb)))
+	c09CheckValue(w, g, pa, g.Public(xaV), "public", "initiator public value")
+	c09CheckValue(w, g, pb, g.Public(xbV), "public", "responder public value")
+	want := g.Shared(xaV, new(big.Int).SetBytes(g.Public(xbV)))
 	c09CheckValue(w, g, sa, want, "shared", "initiator shared secret")
 	c09CheckValue(w, g, sb, want, "shared", "responder shared secret")
 	if !bytes.Equal(sa, sb) {
@@ -334,6 +379,12 @@ func newIKESA(s *Step, su Suite, rs *RandScript) (*security.IKESAKey, []byte, *c
 	g := ref.GroupByID(uint16(su.DH))
 	a := new(big.Int).SetBytes(s.X)
 	kei := g.Public(a)
+	if s.N > 0 {
+		// a Byzantine / sloppy peer sends g^a + m*p: same residue, longer than the modulus
+		v := new(big.Int).SetBytes(kei)
+		v.Add(v, new(big.Int).Mul(g.P, big.NewInt(int64(s.N))))
+		kei = v.Bytes()
+	}
 	res := &callResult{}
 	prop, err := ikeProposal(su)
 	if err != nil {
@@ -543,7 +594,7 @@ func genC09(r *Rng, idx int, tier string) *Scenario {
 		case 7, 8, 9, 10:
 			sc.Steps = append(sc.Steps, Step{Op: "dh_shared", Group: gid, X: genExponentBytes(r, g), Y: genPeerBytes(r, g), Repeat: r.Intn(2)})
 		case 11, 12:
-			sc.Steps = append(sc.Steps, Step{Op: "dh_agree", Group: gid, Rand: genDHRand(r), Rand2: genDHRand(r)})
+			sc.Steps = append(sc.Steps, Step{Op: "dh_agree", Group: gid, Rand: genDHRand(r), Rand2: genDHRand(r), N: r.Intn(2)})
 		case 13, 14:
 			su := suiteByIndex(r.Intn(27))
 			su.DH = gid
@@ -552,6 +603,9 @@ func genC09(r *Rng, idx int, tier string) *Scenario {
 			if r.Chance(1, 5) {
 				st.Rand.FailAt = r.Range(1, 3)
 				st.Rand.FailMode = Pick(r, "err", "eof", "partial")
+			}
+			if r.Chance(1, 4) {
+				st.N = Pick(r, 1, 2, 255, 256, 65535)
 			}
 			sc.Steps = append(sc.Steps, st)
 		case 15:
